@@ -45,9 +45,15 @@ Proof.
   pose proof (Wf _ Hi) as Wi. cbv zeta in Wi. rewrite E, dnth_app_last, P in Wi. destruct Wi as (Hl & _ & _ & Hp & El & _).
   rewrite (did_step c s W (length ds) p Hi) by (now rewrite E, dnth_app_last).
   unfold gen_next_child_id. rewrite <- (dnth_app_l ds ch p Hp).
-  destruct (Nat.leb_spec (height c - 1) (d_lvl (dnth p (ds ++ [ch])))) as [X|X]; [lia|].
-  replace (d_lvl (dnth p (ds ++ [ch])) + 1) with (d_lvl ch) by lia.
-  rewrite level_ids_count. unfold lvl_index. rewrite E, dnth_app_last, firstn_app_l, firstn_all by lia.
+  (* whichever way the level guard, the sum and the root test are written in the source *)
+  assert (E1 : d_lvl (dnth p (ds ++ [ch])) + 1 = d_lvl ch) by lia. assert (E2 : 1 + d_lvl (dnth p (ds ++ [ch])) = d_lvl ch) by lia.
+  assert (E3 : S (d_lvl (dnth p (ds ++ [ch]))) = d_lvl ch) by lia.
+  repeat match goal with
+         | |- context [Nat.leb ?a ?b] => destruct (Nat.leb_spec a b); try lia
+         | |- context [Nat.ltb ?a ?b] => destruct (Nat.ltb_spec a b); try lia
+         | |- context [Nat.eqb ?a ?b] => destruct (Nat.eqb_spec a b); try lia
+         end.
+  rewrite ?E1, ?E2, ?E3, !level_ids_count. unfold lvl_index. rewrite E, dnth_app_last, firstn_app_l, firstn_all by lia.
   unfold is_root. destruct (did (ds ++ [ch]) p); reflexivity.
 Qed.
 
